@@ -341,7 +341,7 @@ int main(int argc, char** argv)
   spec.rule = "case = (composed matrix kind with fixed small block dimensions, type pair, one of ALL sparsity patterns of the whole matrix (structurally zero blocks excluded), "
     "representation of blocks without entries {entry-free, allocated}, interface {native meta vectors, DenseVector}, variant = alphabet {exact, rounding, all-negative, extreme-magnitude} on a fresh object or scenario {other calls first, sub-range views (DenseVector interface), deep clone, weak clone, moved object}, operation {apply, apply_transposed} x {r:=Ax, r:=y+aAx r!=y, r==y}, alpha); every operation is repeated on the filled objects; "
     "non-trivial = matrix has entries and |alpha|>=eps; hash over all of these";
-  spec.bounds_quick = "TupleMatrix 2x2 blocks rows(1,2) cols(2,1) and 3x2 blocks (512 patterns each), TupleDiagMatrix<1x2,2x2> (64), PowerDiag<2> blocks 2x1,1x2,2x2 (16,16,256), PowerFull<2,2> blocks 1x2,2x1 (256 each), "
+  spec.bounds_quick = "plus layouts with non-square / unequal blocks so that every slice offset of the flat interface is distinguishable: SaddlePoint A2x1,B2x3,D4x1 and A1x2,B1x4,D3x2 (4096 patterns each, pairwise different dimensions; quick: exact+rounding alphabet, thorough: 6 variants), A2x1,B2x2,D1x1 / A1x2,B1x1,D2x2, TupleDiag and PowerDiag blocks 1x3,2x4, PowerDiag 1x2,2x1, PowerFull heights(1,2) widths(2,1), PowerRow widths(1,2)/(2,3,4), PowerCol heights(1,2)/(2,3,4), TupleMatrix rows(2,1) cols(1,3); TupleMatrix 2x2 blocks rows(1,2) cols(2,1) and 3x2 blocks (512 patterns each), TupleDiagMatrix<1x2,2x2> (64), PowerDiag<2> blocks 2x1,1x2,2x2 (16,16,256), PowerFull<2,2> blocks 1x2,2x1 (256 each), "
     "PowerRow<2> 2x2 (256), PowerRow<3> 2x1,1x2 (64 each), PowerCol likewise, SaddlePoint<CSR,CSR,CSR> (256), SaddlePoint<PowerDiag,PowerCol,PowerRow> (1024); (double,u64): 9 variants, (float,u32): the 4 alphabets; 9 scalars";
   spec.bounds_thorough = "same as quick (the space is completed in the quick tier)";
   spec.assumptions = {
